@@ -23,10 +23,11 @@ import (
 
 // To translates a golang Time object to a protobuf Timestamp message.
 func To(t time.Time) *tspb.Timestamp {
-	const NanosPerSecond = 1000000000
+	// Seconds since the epoch plus the non-negative nanosecond offset within that second. (UnixNano
+	// is undefined outside 1678..2262 and its remainder is negative before 1970.)
 	return &tspb.Timestamp{
 		Seconds: t.Unix(),
-		Nanos:   int32(t.UnixNano() % NanosPerSecond),
+		Nanos:   int32(t.Nanosecond()),
 	}
 }
 
